@@ -584,5 +584,5 @@ META = {
     "no local overrides. Schedules themselves are not explored.",
     "note": "Decides the listed structural clauses, not the behaviour. Trusted: threading.local isolation, "
     "contextlib.contextmanager semantics (generator close raises at the yield).",
-    "more": "Thread-local containers cross a thread boundary only as copies (no public method returns one uncopied or adopts a caller's object).",
+    "more": "Thread-local containers cross a thread boundary only as copies (no public method returns one uncopied or adopts a caller's object). The hand-over accessor returns the whole thread-local view (masks included); asked for a thread-local set, _set_item reaches the private layer on every normal path.",
 }
